@@ -24,13 +24,17 @@
 (*  "nest"    parser::array / parser::dictionary with the thread-local       *)
 (*            NestingGuard and MAX_NESTING (MaxB in the model; lopdf: 48,    *)
 (*            added by fix: 79ece31) on every object over [ ] x.             *)
+(*  "window"  Reader::get_xref_start: search_substring recurses once per     *)
+(*            occurrence of the marker, so its depth is bounded only        *)
+(*            because the caller hands it the last Win bytes (512) of the   *)
+(*            file; guard removed = the search starts at offset 0.          *)
 (*  "search"  Reader::search_substring as used by get_xref_start, incl. the *)
 (*            `seek_pos -= index` backtracking and the recursive call for   *)
 (*            the last occurrence, on every buffer over a small alphabet.   *)
 (***************************************************************************)
 EXTENDS Naturals, Integers, Sequences, FiniteSets, TLC
 
-CONSTANTS Model,      \* which mechanism: "prev" | "len" | "bracket" | "nest" | "search"
+CONSTANTS Model,      \* which mechanism: "prev" | "len" | "bracket" | "nest" | "search" | "window"
           N,          \* sections / objects / maximal input length
           MaxB,       \* the bracket / nesting limit of the model (lopdf: MAX_BRACKET = 100, MAX_NESTING = 48)
           GuardOn     \* FALSE: the guard of the selected mechanism is removed
@@ -226,6 +230,14 @@ NsDone == st.pc \in {"accept", "reject"}
 
 SsBuffers == UNION {[1..n -> Alphabet] : n \in 0..N}
 
+\* "window": the caller's guard.  get_xref_start starts the search at len - min(len, 512); Win is the model's 512.
+Win == MaxB + 1
+WinStart(b) == IF Len(b) > Win THEN Len(b) - Win ELSE 0
+WinInit ==
+    \E b \in SsBuffers, p \in Patterns :
+        LET s == IF GuardOn THEN WinStart(b) ELSE 0 IN
+        st = [pc |-> "loop", b |-> b, p |-> p, s0 |-> s, seek |-> s, idx |-> 0, found |-> <<>>, steps |-> 0, under |-> FALSE]
+
 SsInit ==
     \E b \in SsBuffers, p \in Patterns, s \in 0..N :
         /\ s <= Len(b)
@@ -241,7 +253,7 @@ SsStep ==
                seek1 == st.seek - back + 1
            IN IF idx1 = Len(p)
               THEN LET res == seek1 - idx1 IN                     \* recursive call from res + 1 (or, guard removed, from res)
-                   st' = [st EXCEPT !.seek = IF GuardOn THEN res + 1 ELSE res, !.idx = 0, !.found = Append(@, res), !.steps = @ + 1,
+                   st' = [st EXCEPT !.seek = IF GuardOn \/ Model = "window" THEN res + 1 ELSE res, !.idx = 0, !.found = Append(@, res), !.steps = @ + 1,
                                     !.under = @ \/ back > st.seek]
               ELSE st' = [st EXCEPT !.seek = seek1, !.idx = idx1, !.steps = @ + 1, !.under = @ \/ back > st.seek]
        ELSE st' = [st EXCEPT !.pc = "done"]                        \* None: every pending call returns its own res .or() the inner one
@@ -259,25 +271,33 @@ SsVariant ==
 SsRefines == st.pc = "done" => SsResult = LastOcc(st.b, st.p, st.s0)
 SsDone == st.pc = "done"
 
+\* the recursion depth is at most the number of occurrences inside the searched window, and the window is a constant:
+\* the depth does not grow with the file
+OccIn(b, p, s) == Cardinality({i \in s..Len(b) : Occ(b, p, i)})
+WinVariant == Len(st.found) <= OccIn(st.b, st.p, st.s0) /\ Len(st.found) <= Win /\ ~st.under
+\* declarative: the marker found is the last one of the file, provided one lies in the last Win bytes
+WinRefines == st.pc = "done" => (SsResult = LastOcc(st.b, st.p, st.s0)
+                                /\ (LastOcc(st.b, st.p, WinStart(st.b)) # -1 => SsResult = LastOcc(st.b, st.p, 0)))
+
 -----------------------------------------------------------------------------
 Init == IF Model = "prev" THEN PrevInit ELSE IF Model = "len" THEN LenInit
-        ELSE IF Model = "bracket" THEN BrInit ELSE IF Model = "nest" THEN NsInit ELSE SsInit
+        ELSE IF Model = "bracket" THEN BrInit ELSE IF Model = "nest" THEN NsInit ELSE IF Model = "window" THEN WinInit ELSE SsInit
 
 StepPrevFirst == Model = "prev" /\ PrevFirst
 StepPrevIter  == Model = "prev" /\ PrevIter
 StepLen       == Model = "len" /\ LenStep
 StepBracket   == Model = "bracket" /\ BrStep
 StepNest      == Model = "nest" /\ NsStep
-StepSearch    == Model = "search" /\ SsStep
+StepSearch    == Model \in {"search", "window"} /\ SsStep
 
 Next == StepPrevFirst \/ StepPrevIter \/ StepLen \/ StepBracket \/ StepNest \/ StepSearch
 
 Spec == Init /\ [][Next]_st /\ WF_st(Next)
 
 Variant == IF Model = "prev" THEN PrevVariant ELSE IF Model = "len" THEN LenVariant
-           ELSE IF Model = "bracket" THEN BrVariant ELSE IF Model = "nest" THEN NsVariant ELSE SsVariant
+           ELSE IF Model = "bracket" THEN BrVariant ELSE IF Model = "nest" THEN NsVariant ELSE IF Model = "window" THEN WinVariant ELSE SsVariant
 Refines == IF Model = "prev" THEN PrevRefines ELSE IF Model = "len" THEN LenRefines
-           ELSE IF Model = "bracket" THEN BrRefines ELSE IF Model = "nest" THEN NsRefines ELSE SsRefines
+           ELSE IF Model = "bracket" THEN BrRefines ELSE IF Model = "nest" THEN NsRefines ELSE IF Model = "window" THEN WinRefines ELSE SsRefines
 Done == IF Model = "prev" THEN PrevDone ELSE IF Model = "len" THEN LenDone
         ELSE IF Model = "bracket" THEN BrDone ELSE IF Model = "nest" THEN NsDone ELSE SsDone
 
